@@ -537,6 +537,22 @@ def rule_csv(ctx):
     for k in ("mnemonics", "units", "data"):
         if k not in kinds:
             problems.append("no %s row is written" % k)
+    # the caller's mnemonics / units lists are read, never modified
+    import re as _re2
+    plist = {"mnemonics", "units"} & set(fi.params())
+    for sub in walk_shallow(fi.node):
+        tgt = None
+        if isinstance(sub, (ast.Assign, ast.AugAssign, ast.Delete)):
+            ts = sub.targets if isinstance(sub, (ast.Assign, ast.Delete)) else [sub.target]
+            for t in ts:
+                if isinstance(t, ast.Subscript) and isinstance(t.value, ast.Name):
+                    tgt = t.value.id
+        elif isinstance(sub, ast.Call) and isinstance(sub.func, ast.Attribute) and isinstance(sub.func.value, ast.Name) \
+                and sub.func.attr in ("append", "extend", "insert", "pop", "remove", "sort", "reverse", "clear", "__setitem__"):
+            tgt = sub.func.value.id
+        if tgt is not None and _re2.sub(r"__[A-Za-z_]+\d+$", "", tgt) in plist:
+            problems.append("`%s` modifies the list passed as %s= in place: the caller's list is changed and the decoration leaks "
+                            "into the next export that reuses it" % (unparse(sub)[:70], _re2.sub(r"__[A-Za-z_]+\d+$", "", tgt)))
     # lineterminator default
     if "lineterminator" not in ast.unparse(fi.node):
         problems.append("lineterminator default is gone")
@@ -645,6 +661,19 @@ def rule_df(ctx):
     idx = [c for c in walk_shallow(fi.node) if isinstance(c, ast.Call) and isinstance(c.func, ast.Attribute) and c.func.attr == "set_index"]
     if not idx or not (idx[0].args and ast.unparse(idx[0].args[0]) == "self.curves[0].mnemonic"):
         problems.append("the first curve is not made the index")
+    # object columns become float64 all-or-nothing: astype inside try/except ValueError, no element-wise coercion
+    for c in walk_shallow(fi.node):
+        if isinstance(c, ast.Call):
+            nm = ast.unparse(c.func).split(".")[-1]
+            if nm in ("to_numeric", "to_datetime", "infer_objects", "convert_dtypes") or any(
+                    k.arg == "errors" and isinstance(k.value, ast.Constant) and k.value.value in ("coerce", "ignore") for k in c.keywords):
+                problems.append("`%s` converts a column element by element: text samples of a mixed column silently become NaN" % unparse(c))
+            if nm == "astype":
+                tr = enclosing(c, (ast.Try,))
+                if tr is None or not any(h.type is not None and "ValueError" in ast.unparse(h.type) for h in tr.handlers):
+                    problems.append("`%s` is not protected by `except ValueError`: a text column makes df() fail" % unparse(c))
+                elif not all(len(h.body) == 1 and isinstance(h.body[0], (ast.Pass, ast.Continue)) for h in tr.handlers):
+                    problems.append("a column that cannot be converted as a whole is not left as it is")
     ctx.check(not problems, "EX.DF", fi.qual, fi, fi.node, "df(): self.data with the session mnemonics as columns, first curve as index",
               "; ".join(problems))
     ctx.floor("EX.DF", 1)
